@@ -339,21 +339,27 @@ Definition mp4_save_existing (f : list Z) (atoms path : list mp4_atom) (ilst_dat
     end
   end.
 
+(* the atoms __save_new inserts: meta(hdlr, ilst, free), wrapped in a new udta when moov has none *)
+Definition mp4_new_meta (cb : Z -> Z -> Z) (content_size : Z) (ilst_data : list Z) : list Z :=
+  let meta_data := zeros 4 ++ mp4_hdlr ++ ilst_data in
+  mp4_render N_meta (meta_data ++ mp4_padding_atom cb (- zlen meta_data) content_size).
+Definition mp4_new_insert (cb : Z -> Z -> Z) (f : list Z) (last : mp4_atom) (ilst_data : list Z) : list Z :=
+  let m := mp4_new_meta cb (zlen f - (ma_off last + ma_hdr last)) ilst_data in
+  if list_eqb (ma_name last) N_udta then m else mp4_render N_udta m.
+(* atoms.path(b"moov", b"udta"), else atoms.path(b"moov") *)
+Definition mp4_insert_path (atoms : list mp4_atom) : option (list mp4_atom) :=
+  match mp4_path atoms [N_moov; N_udta] with Some p => Some p | None => mp4_path atoms [N_moov] end.
+
 Definition mp4_save_new (f : list Z) (atoms : list mp4_atom) (ilst_data : list Z) (cb : Z -> Z -> Z)
   : result (list Z) :=
-  let meta_data := zeros 4 ++ mp4_hdlr ++ ilst_data in
-  match (match mp4_path atoms [N_moov; N_udta] with Some p => Some p | None => mp4_path atoms [N_moov] end) with
+  match mp4_insert_path atoms with
   | None => Raise EKey
   | Some path =>
     match rev path with
     | [] => Raise EKey
     | last :: _ =>
       let offset := ma_off last + ma_hdr last in
-      let content_size := zlen f - offset in
-      let padding_size := - zlen meta_data in
-      let free := mp4_padding_atom cb padding_size content_size in
-      let meta := mp4_render N_meta (meta_data ++ free) in
-      let data := if list_eqb (ma_name last) N_udta then meta else mp4_render N_udta meta in
+      let data := mp4_new_insert cb f last ilst_data in
       if offset >? zlen f then Raise EValue else
       let f1 := splice f offset 0 data in
       match mp4_update_parents (zlen data) f1 (map ma_off path) with
